@@ -335,6 +335,8 @@ def _inline_new_locals(fn, known, limit=None):
                                     rebound = rebound or rebinds(s2.value)
                                 elif isinstance(s2, ast.If) and not any(has_use(x) for blk in (s2.body, s2.orelse) for x in blk):
                                     rebound = rebound or rebinds(s2.test)     # the test is evaluated before either branch runs
+                                elif isinstance(s2, ast.For) and not any(has_use(x) for blk in (s2.body, s2.orelse) for x in blk) and not has_use(s2.target):
+                                    rebound = rebound or rebinds(s2.iter)     # the iterable is evaluated once, before the first iteration
                                 else:
                                     rebound = rebound or rebinds(s2)
                         if rebound:
